@@ -423,6 +423,17 @@ def wl_positions(ctx, idx, rng):
     ctx.call(o, r.offset_at, fx.fh_start - 2 * u.s - float(2 / fx.rate) * u.s, expect=EOFError, where="offset_at(before start)")
     ctx.call(o, r.offset_at, r.time_at(L) + float(2 / fx.rate) * u.s, expect=EOFError, where="offset_at(after stop)")
     ctx.call(o, r.read, 0.5, 1, expect=TypeError, where="read(0.5, 1)")
+    dt_s = float(1 / fx.rate)
+    for frac in (0.6, 1.0, 1.4):
+        ctx.call(o, r.offset_at, fx.fh_start - frac * dt_s * u.s, expect=EOFError, where=f"offset_at(start - {frac} samples)")
+        ctx.call(o, r.offset_at, (-frac * dt_s) * u.s, expect=EOFError, where=f"offset_at(-{frac} samples, relative)")
+        ctx.call(o, r.offset_at, r.time_at(L) + frac * dt_s * u.s, expect=EOFError, where=f"offset_at(stop + {frac} samples)")
+    k0, exc = ctx.call(o, r.offset_at, fx.fh_start - 0.3 * dt_s * u.s, where="offset_at(start - 0.3 samples)")
+    if exc is None and k0 != 0:
+        ctx.violation(o, f"{fx.name}: offset_at(start - 0.3 samples) = {k0}", None, {"what": "nearest_low"})
+    kL, exc = ctx.call(o, r.offset_at, r.time_at(L) + 0.3 * dt_s * u.s, where="offset_at(stop + 0.3 samples)")
+    if exc is None and kL != L:
+        ctx.violation(o, f"{fx.name}: offset_at(stop + 0.3 samples) = {kL}", None, {"what": "nearest_high"})
     e0, exc = ctx.call(o, r.read, L, 0, where="read(len, 0)")
     ctx.bucket("positions", fx.name)
 
